@@ -216,7 +216,8 @@ def constrainedEval {F} [Num F] (pen : F) (base : List F) : List F := [neg pen] 
 
 /-! ### instances -/
 
-/-- exact arithmetic; the constants are the exact values of the doubles used by the code -/
+/-- exact arithmetic; the constants are the exact values of the C++ constant expressions
+    (`max() / 100.0`, `10.0 * min()`, `2.0 * epsilon()`) read over the rationals -/
 instance : Num Rat where
   zero := 0
   one := 1
@@ -229,7 +230,8 @@ instance : Num Rat where
   lt a b := decide (a < b)
   le a b := decide (a ≤ b)
   isFinite _ := true
-  penalty := 1797693134862315633301262629765050630866728936377003738459752501701914801454763796210449641241516314779480883561305033792001456611676070178718250902275612892141556670084334558762242165238180420033094130920939320073544954448635079731752693526288593899415905695239791325170347763968341437224060469123940876288
+  -- DBL_MAX / 100 in exact arithmetic (DBL_MAX = (2^53 − 1)·2^971)
+  penalty := 179769313486231570814527423731704356798070567525844996598917476803157260780028538760589558632766878171540458953514382464234321326889464182768467546703537516986049910576551282076245490090389328944075868508455133942304583236903222948165808559332123348274797826204144723168738177180919299881250404026184124858368 / 100
   c200 := 200
   c100 := 100
   two := 2
